@@ -44,7 +44,7 @@ pub fn hex(b: &[u8]) -> String {
 }
 
 pub trait Elem:
-    Copy + Debug + Default + Display + PartialEq + Serialize + DeserializeOwned + WTIndexable + Send + Sync + 'static
+    Copy + Debug + Default + Display + PartialEq + Serialize + DeserializeOwned + WTIndexable + 'static
 {
     fn from_u128(x: u128) -> Option<Self>;
     fn to_u128(self) -> u128;
@@ -58,6 +58,17 @@ macro_rules! impl_elem {
     )*};
 }
 impl_elem![u8, u16, u32, u64, usize, u128];
+
+/// The multi-threaded runs share `&self` across threads. Whether the library's types really are
+/// `Send + Sync` is a compile-time obligation of its own (src/bin/sendsync.rs, built by the C18
+/// check only), so that a type losing an auto trait is reported by C18 and does not stop the
+/// harness from building for the other properties.
+pub struct ForceSync<'a, T: ?Sized>(pub &'a T);
+impl<'a, T: ?Sized> Clone for ForceSync<'a, T> { fn clone(&self) -> Self { ForceSync(self.0) } }
+impl<'a, T: ?Sized> Copy for ForceSync<'a, T> {}
+impl<'a, T: ?Sized> ForceSync<'a, T> { pub fn get(self) -> &'a T { self.0 } }
+unsafe impl<'a, T: ?Sized> Sync for ForceSync<'a, T> {}
+unsafe impl<'a, T: ?Sized> Send for ForceSync<'a, T> {}
 
 pub trait Obj: Any {
     fn q(&self, op: &str, a: &[u128]) -> String;
@@ -125,7 +136,7 @@ where
 }
 
 // ------------------------------------------------------------------------------- trees
-pub trait TreeApi: Sized + Clone + PartialEq + Serialize + DeserializeOwned + SpaceUsage + Send + Sync + 'static {
+pub trait TreeApi: Sized + Clone + PartialEq + Serialize + DeserializeOwned + SpaceUsage + 'static {
     type E: Elem;
     const FAMILY: &'static str;
     fn t_new(v: &mut [Self::E]) -> Self;
@@ -157,7 +168,7 @@ impl<T, RS, const P: bool> TreeApi for QWaveletTree<T, RS, P>
 where
     T: Elem,
     usize: AsPrimitive<T>,
-    RS: RSforWT + Clone + PartialEq + Serialize + DeserializeOwned + Send + Sync + 'static,
+    RS: RSforWT + Clone + PartialEq + Serialize + DeserializeOwned + 'static,
 {
     type E = T;
     const FAMILY: &'static str = "q";
@@ -186,7 +197,7 @@ impl<T, RS, const P: bool> TreeApi for HuffQWaveletTree<T, RS, P>
 where
     T: Elem,
     usize: AsPrimitive<T>,
-    RS: RSforWT + Clone + PartialEq + Serialize + DeserializeOwned + Send + Sync + 'static,
+    RS: RSforWT + Clone + PartialEq + Serialize + DeserializeOwned + 'static,
 {
     type E = T;
     const FAMILY: &'static str = "hq";
@@ -214,7 +225,7 @@ impl<T, BRS, const C: bool> TreeApi for WaveletTree<T, BRS, C>
 where
     T: Elem,
     usize: AsPrimitive<T>,
-    BRS: BinRSforWT + Clone + PartialEq + Serialize + DeserializeOwned + Send + Sync + 'static,
+    BRS: BinRSforWT + Clone + PartialEq + Serialize + DeserializeOwned + 'static,
 {
     type E = T;
     const FAMILY: &'static str = if C { "hw" } else { "w" };
@@ -386,7 +397,8 @@ impl<X: TreeApi> Obj for TreeObj<X> {
         let base = self.q(op, a);
         let before = self.ser();
         let ok = std::thread::scope(|s| {
-            let hs: Vec<_> = (0..k).map(|_| s.spawn(|| guard(|| self.q1(op, a)))).collect();
+            let me = ForceSync(self);
+            let hs: Vec<_> = (0..k).map(|_| s.spawn(move || guard(|| me.get().q1(op, a)))).collect();
             hs.into_iter().all(|h| h.join().map(|r| r == base).unwrap_or(false))
         });
         let after = self.ser();
@@ -503,7 +515,7 @@ macro_rules! qv_build {
 pub struct RsqObj<R> {
     r: R,
 }
-pub trait RsqApi: Sized + Clone + PartialEq + Serialize + DeserializeOwned + SpaceUsage + Send + Sync + 'static
+pub trait RsqApi: Sized + Clone + PartialEq + Serialize + DeserializeOwned + SpaceUsage + 'static
     + AccessQuad + RankQuad + SelectQuad + WTSupport + From<QVector> + Default + FromIterator<u64>
 {
     fn r_len(&self) -> usize;
@@ -583,7 +595,8 @@ impl<R: RsqApi> Obj for RsqObj<R> {
         let base = self.q(op, a);
         let before = self.ser();
         let ok = std::thread::scope(|s| {
-            let hs: Vec<_> = (0..k).map(|_| s.spawn(|| guard(|| self.q1(op, a)))).collect();
+            let me = ForceSync(self);
+            let hs: Vec<_> = (0..k).map(|_| s.spawn(move || guard(|| me.get().q1(op, a)))).collect();
             hs.into_iter().all(|h| h.join().map(|r| r == base).unwrap_or(false))
         });
         format!("{}|{}|{}", base, tf(ok), tf(before == self.ser()))
@@ -609,7 +622,7 @@ fn bits_of(s: &str) -> Vec<bool> {
     s.bytes().map(|c| c == b'1').collect()
 }
 
-pub trait BinApi: Sized + Clone + PartialEq + Serialize + DeserializeOwned + SpaceUsage + Send + Sync + 'static
+pub trait BinApi: Sized + Clone + PartialEq + Serialize + DeserializeOwned + SpaceUsage + 'static
     + AccessBin + RankBin + SelectBin + From<BitVector> + Default
 {
     const NAME: &'static str;
@@ -693,7 +706,8 @@ impl<B: BinApi> Obj for BinObj<B> {
         let base = self.q(op, a);
         let before = self.ser();
         let ok = std::thread::scope(|s| {
-            let hs: Vec<_> = (0..k).map(|_| s.spawn(|| guard(|| self.q1(op, a)))).collect();
+            let me = ForceSync(self);
+            let hs: Vec<_> = (0..k).map(|_| s.spawn(move || guard(|| me.get().q1(op, a)))).collect();
             hs.into_iter().all(|h| h.join().map(|r| r == base).unwrap_or(false))
         });
         format!("{}|{}|{}", base, tf(ok), tf(before == self.ser()))
@@ -783,7 +797,8 @@ impl<const S0: bool> Obj for DaObj<S0> {
         let base = self.q(op, a);
         let before = self.ser();
         let ok = std::thread::scope(|s| {
-            let hs: Vec<_> = (0..k).map(|_| s.spawn(|| guard(|| self.q1(op, a)))).collect();
+            let me = ForceSync(self);
+            let hs: Vec<_> = (0..k).map(|_| s.spawn(move || guard(|| me.get().q1(op, a)))).collect();
             hs.into_iter().all(|h| h.join().map(|r| r == base).unwrap_or(false))
         });
         format!("{}|{}|{}", base, tf(ok), tf(before == self.ser()))
@@ -963,7 +978,8 @@ impl Obj for BvObj {
         let before = self.ser();
         let ok = match &self.b {
             Bv::I(b) => std::thread::scope(|s| {
-                let hs: Vec<_> = (0..k).map(|_| s.spawn(|| guard(|| bv_q!(b, op, a)))).collect();
+                let me = ForceSync(b);
+                let hs: Vec<_> = (0..k).map(|_| s.spawn(move || guard(|| bv_q!(me.get(), op, a)))).collect();
                 hs.into_iter().all(|h| h.join().map(|r| r == base).unwrap_or(false))
             }),
             Bv::M(_) => true,
